@@ -63,15 +63,19 @@ theorem simres_rebase {ctx : Ctx} {st s1 : St} {stk stk1 : List Val} {σ σ1 : M
     rw [hbase] at h9 h10
     exact ⟨h1, h2, h3.trans hlab, Nat.le_trans hn h4, h5, σ', h6, h7, h8, hb.trans h9, h10.trans ht⟩
   | branch l stkB locB =>
-    obtain ⟨h0, lab, σ', h1, h2, h3⟩ := h
+    obtain ⟨h0, lab, σ', h1, h2, h34⟩ := h
+    have h3 := h34.1
+    have h4 := h34.2
     rw [label_eq_of_labels hlab] at h1
     rw [hbase] at h3
-    exact ⟨h0, lab, σ', h1, h2, h3.rebase hb ht (hw.height_le_base (St.label_mem h1))⟩
+    exact ⟨h0, lab, σ', h1, h2, h3.rebase hb ht (hw.height_le_base (St.label_mem h1)), h4⟩
   | ret stkB locB =>
-    obtain ⟨h0, lab, σ', h1, h2, h3⟩ := h
+    obtain ⟨h0, lab, σ', h1, h2, h34⟩ := h
+    have h3 := h34.1
+    have h4 := h34.2
     rw [hlab] at h1
     rw [hbase] at h3
-    exact ⟨h0, lab, σ', h1, h2, h3.rebase hb ht (hw.height_le_base (List.mem_of_getElem? h1))⟩
+    exact ⟨h0, lab, σ', h1, h2, h3.rebase hb ht (hw.height_le_base (List.mem_of_getElem? h1)), h4⟩
 
 /-- a non-normal finished result of the first statement is the result of the whole list -/
 theorem execSeq_of_execOut {ns : NumSem} {f : Nat} {out1 out2 : List MStmtC} {σ : MSt} {m : MRes}
@@ -87,89 +91,4 @@ theorem execSeq_of_execOut {ns : NumSem} {f : Nat} {out1 out2 : List MStmtC} {σ
     | normal σ' => exact absurd rfl (hn σ')
     | _ => rfl
 
-theorem seq_step (ns : NumSem) (ctx : Ctx) (f : Nat) (hS : SeqStmt ns ctx f) (hI : InstrStmt ns ctx f) : SeqStmt ns ctx (f + 1) := by
-  intro is st st' out dead stk loc σ hc hw hr hl hlt
-  cases is with
-  | nil =>
-    simp [compileSeq] at hc
-    obtain ⟨rfl, rfl, rfl⟩ := hc
-    rw [erunSeq, execSeq]
-    exact simres_normal_intro rfl hw rfl (Nat.le_refl _) hlt σ rfl hr hl (SlotsBelow.refl _ _) rfl
-  | cons i rest =>
-    simp only [compileSeq] at hc
-    cases hci : compileInstr ctx st i with
-    | error e => simp [hci, bind, Except.bind] at hc
-    | ok res =>
-      obtain ⟨s1, out1, dead1⟩ := res
-      simp only [hci, bind, Except.bind] at hc
-      obtain ⟨hlen, hsim⟩ := hI i st s1 out1 dead1 stk loc σ hci hw hr hl hlt
-      rw [erunSeq]
-      -- the statement list of the first instruction is [] or [s]
-      cases hri : erunInstr ns f i stk loc with
-      | normal stk1 loc1 =>
-        rw [hri] at hsim
-        obtain ⟨hd1, hw1, hlab1, hn1, hlt1, σ1, hm1, hr1, hl1, hb1, ht1⟩ := hsim
-        subst hd1
-        simp only [Bool.false_eq_true, if_false] at hc
-        cases hcr : compileSeq ctx s1 rest with
-        | error e => simp [hcr] at hc
-        | ok res2 =>
-          obtain ⟨s2, out2, dead2⟩ := res2
-          simp only [hcr] at hc
-          injection hc with hc
-          simp only [Prod.mk.injEq] at hc
-          obtain ⟨rfl, rfl, rfl⟩ := hc
-          have ih := hS rest s1 s2 out2 dead2 stk1 loc1 σ1 hcr hw1 hr1 hl1 hlt1
-          have ih' := simres_rebase hw hlab1 hn1 hb1 ht1 ih
-          simp only []
-          match out1, hlen, hm1 with
-          | [], _, hm1 =>
-            simp only [execOut] at hm1
-            injection hm1 with hm1; subst hm1
-            simp only [List.nil_append]
-            exact simres_exec_mono ih'
-          | [s], _, hm1 =>
-            simp only [execOut] at hm1
-            simp only [List.cons_append, List.nil_append]
-            rw [execSeq, hm1]
-            exact ih'
-      | oof => trivial
-      | stuck => trivial
-      | trap t =>
-        rw [hri] at hsim
-        have hout : ∃ out2, out = out1 ++ out2 := by
-          by_cases hd : dead1 = true
-          · simp only [hd, if_true] at hc; injection hc with hc; simp only [Prod.mk.injEq] at hc; exact ⟨[], by simp [hc.2.1]⟩
-          · simp only [hd, if_false] at hc
-            cases hcr : compileSeq ctx s1 rest with
-            | error e => simp [hcr] at hc
-            | ok res2 => simp only [hcr] at hc; injection hc with hc; simp only [Prod.mk.injEq] at hc; exact ⟨res2.2.1, hc.2.1.symm⟩
-        obtain ⟨out2, rfl⟩ := hout
-        have hm : execOut ns f out1 σ = .trap t := hsim
-        show execSeq ns (f + 1) (out1 ++ out2) σ = .trap t
-        exact execSeq_of_execOut hlen hm (by intro σ'; simp)
-      | branch l stkB locB =>
-        rw [hri] at hsim
-        have hout : ∃ out2, out = out1 ++ out2 := by
-          by_cases hd : dead1 = true
-          · simp only [hd, if_true] at hc; injection hc with hc; simp only [Prod.mk.injEq] at hc; exact ⟨[], by simp [hc.2.1]⟩
-          · simp only [hd, if_false] at hc
-            cases hcr : compileSeq ctx s1 rest with
-            | error e => simp [hcr] at hc
-            | ok res2 => simp only [hcr] at hc; injection hc with hc; simp only [Prod.mk.injEq] at hc; exact ⟨res2.2.1, hc.2.1.symm⟩
-        obtain ⟨out2, rfl⟩ := hout
-        obtain ⟨h0, lab, σ', h1, h2, h3⟩ := hsim
-        exact ⟨h0, lab, σ', h1, execSeq_of_execOut hlen h2 (by intro σ''; simp), h3⟩
-      | ret stkB locB =>
-        rw [hri] at hsim
-        have hout : ∃ out2, out = out1 ++ out2 := by
-          by_cases hd : dead1 = true
-          · simp only [hd, if_true] at hc; injection hc with hc; simp only [Prod.mk.injEq] at hc; exact ⟨[], by simp [hc.2.1]⟩
-          · simp only [hd, if_false] at hc
-            cases hcr : compileSeq ctx s1 rest with
-            | error e => simp [hcr] at hc
-            | ok res2 => simp only [hcr] at hc; injection hc with hc; simp only [Prod.mk.injEq] at hc; exact ⟨res2.2.1, hc.2.1.symm⟩
-        obtain ⟨out2, rfl⟩ := hout
-        obtain ⟨h0, lab, σ', h1, h2, h3⟩ := hsim
-        exact ⟨h0, lab, σ', h1, execSeq_of_execOut hlen h2 (by intro σ''; simp), h3⟩
 end W2c2Verif.Sim
